@@ -8,13 +8,24 @@ package hotstuffpb
 // What the protobuf decoder produces: oneof wrapper objects and the elements of repeated
 // message fields are never nil (everything else may be absent).
 //@ pred wiresig(s *QuorumSignature) = (istype(s.Sig, *QuorumSignature_ECDSASigs) ==> as(s.Sig, *QuorumSignature_ECDSASigs) != nil && (as(s.Sig, *QuorumSignature_ECDSASigs).ECDSASigs != nil ==> (forall i int :: {as(s.Sig, *QuorumSignature_ECDSASigs).ECDSASigs.Sigs[i]} 0 <= i && i < len(as(s.Sig, *QuorumSignature_ECDSASigs).ECDSASigs.Sigs) ==> as(s.Sig, *QuorumSignature_ECDSASigs).ECDSASigs.Sigs[i] != nil))) && (istype(s.Sig, *QuorumSignature_EDDSASigs) ==> as(s.Sig, *QuorumSignature_EDDSASigs) != nil && (as(s.Sig, *QuorumSignature_EDDSASigs).EDDSASigs != nil ==> (forall i int :: {as(s.Sig, *QuorumSignature_EDDSASigs).EDDSASigs.Sigs[i]} 0 <= i && i < len(as(s.Sig, *QuorumSignature_EDDSASigs).EDDSASigs.Sigs) ==> as(s.Sig, *QuorumSignature_EDDSASigs).EDDSASigs.Sigs[i] != nil))) && (istype(s.Sig, *QuorumSignature_BLS12Sig) ==> as(s.Sig, *QuorumSignature_BLS12Sig) != nil)
-// Byte fields are bounded by the transport's message size limit (far below 2^28).
-//@ pred wireheap() = (forall s *QuorumSignature :: s != nil ==> wiresig(s)) && (forall a *BLS12AggregateSignature :: len(a.Participants) <= 268435456)
+// Byte fields are bounded by the transport's message size limit (far below 2^28). The shape
+// is stated per message (w* predicates follow the message structure).
+//@ pred wsig(s *QuorumSignature) = s != nil ==> wiresig(s) && (istype(s.Sig, *QuorumSignature_BLS12Sig) && as(s.Sig, *QuorumSignature_BLS12Sig).BLS12Sig != nil ==> len(as(s.Sig, *QuorumSignature_BLS12Sig).BLS12Sig.Participants) <= 268435456)
+//@ pred wqc(q *QuorumCert) = q != nil ==> wsig(q.Sig)
+//@ pred wtc(t *TimeoutCert) = t != nil ==> wsig(t.Sig)
+//@ pred wpc(c *PartialCert) = c != nil ==> wsig(c.Sig)
+//@ pred waqc(a *AggQC) = a != nil ==> wsig(a.Sig) && (forall k uint32 :: {a.QCs[k]} has(a.QCs, k) ==> wqc(a.QCs[k]))
+//@ pred wsi(s *SyncInfo) = s != nil ==> wqc(s.QC) && wtc(s.TC) && waqc(s.AggQC)
+//@ pred wtm(m *TimeoutMsg) = m != nil ==> wsi(m.SyncInfo) && wsig(m.ViewSig) && wsig(m.MsgSig)
+//@ pred wblock(b *Block) = b != nil ==> wqc(b.QC)
+//@ pred wprop(p *Proposal) = p != nil ==> wblock(p.Block) && waqc(p.AggQC)
 
 //@ func QuorumSignatureFromProto property C10,C12
 //@   mode bytebv
-//@   requires wireheap()
+//@   requires wsig(sig)
 //@   ensures [no-typed-nil] istype(result, *crypto.BLS12AggregateSignature) ==> as(result, *crypto.BLS12AggregateSignature) != nil
+//@   ensures [decodes] decodes(result, sig)
+//@   ensures [absent] (sig == nil || sig.Sig == nil) ==> result == nil
 //@   ensures [ecdsa] sig != nil && istype(sig.Sig, *QuorumSignature_ECDSASigs) && as(sig.Sig, *QuorumSignature_ECDSASigs).ECDSASigs != nil ==> istype(result, crypto.Multi[*crypto.ECDSASignature]) && len(as(result, crypto.Multi[*crypto.ECDSASignature])) == len(as(sig.Sig, *QuorumSignature_ECDSASigs).ECDSASigs.Sigs) && (forall i int :: {as(result, crypto.Multi[*crypto.ECDSASignature])[i]} 0 <= i && i < len(as(sig.Sig, *QuorumSignature_ECDSASigs).ECDSASigs.Sigs) ==> as(result, crypto.Multi[*crypto.ECDSASignature])[i] != nil && as(result, crypto.Multi[*crypto.ECDSASignature])[i].signer == as(sig.Sig, *QuorumSignature_ECDSASigs).ECDSASigs.Sigs[i].Signer && sameslice(as(result, crypto.Multi[*crypto.ECDSASignature])[i].sig, as(sig.Sig, *QuorumSignature_ECDSASigs).ECDSASigs.Sigs[i].Sig))
 //@   ensures [eddsa] sig != nil && istype(sig.Sig, *QuorumSignature_EDDSASigs) && as(sig.Sig, *QuorumSignature_EDDSASigs).EDDSASigs != nil ==> istype(result, crypto.Multi[*crypto.EDDSASignature]) && len(as(result, crypto.Multi[*crypto.EDDSASignature])) == len(as(sig.Sig, *QuorumSignature_EDDSASigs).EDDSASigs.Sigs) && (forall i int :: {as(result, crypto.Multi[*crypto.EDDSASignature])[i]} 0 <= i && i < len(as(sig.Sig, *QuorumSignature_EDDSASigs).EDDSASigs.Sigs) ==> as(result, crypto.Multi[*crypto.EDDSASignature])[i] != nil && as(result, crypto.Multi[*crypto.EDDSASignature])[i].signer == as(sig.Sig, *QuorumSignature_EDDSASigs).EDDSASigs.Sigs[i].Signer && sameslice(as(result, crypto.Multi[*crypto.EDDSASignature])[i].sig, as(sig.Sig, *QuorumSignature_EDDSASigs).EDDSASigs.Sigs[i].Sig))
 //@   loop 1 invariant [restored] forall j int :: {sigs[j]} 0 <= j && j <= rangeindex ==> sigs[j] != nil && allocated(sigs[j]) && sigs[j].signer == signature.Sigs[j].Signer && sameslice(sigs[j].sig, signature.Sigs[j].Sig)
@@ -22,12 +33,31 @@ package hotstuffpb
 //@   loop 0 invariant [restored] forall j int :: {sigs[j]} 0 <= j && j <= rangeindex ==> sigs[j] != nil && allocated(sigs[j]) && sigs[j].signer == signature.Sigs[j].Signer && sameslice(sigs[j].sig, signature.Sigs[j].Sig)
 //@   loop 0 invariant [fresh] fresh(sigs) && len(sigs) == len(signature.Sigs)
 //@   modifies alloc
+
+// ---- C12: what the two directions of the signature conversion establish.
+// encodes(p, sig): the wire signature p lists sig's signers and signature bytes in sig's order.
+//@ pred encodes(p *QuorumSignature, sig hotstuff.QuorumSignature) = p != nil && (sig == nil ==> p.Sig == nil) && (istype(sig, crypto.Multi[*crypto.ECDSASignature]) ==> istype(p.Sig, *QuorumSignature_ECDSASigs) && as(p.Sig, *QuorumSignature_ECDSASigs) != nil && as(p.Sig, *QuorumSignature_ECDSASigs).ECDSASigs != nil && len(as(p.Sig, *QuorumSignature_ECDSASigs).ECDSASigs.Sigs) == len(as(sig, crypto.Multi[*crypto.ECDSASignature])) && (forall i int :: {as(p.Sig, *QuorumSignature_ECDSASigs).ECDSASigs.Sigs[i]} 0 <= i && i < len(as(sig, crypto.Multi[*crypto.ECDSASignature])) ==> as(p.Sig, *QuorumSignature_ECDSASigs).ECDSASigs.Sigs[i] != nil && as(p.Sig, *QuorumSignature_ECDSASigs).ECDSASigs.Sigs[i].Signer == as(sig, crypto.Multi[*crypto.ECDSASignature])[i].signer && sameslice(as(p.Sig, *QuorumSignature_ECDSASigs).ECDSASigs.Sigs[i].Sig, as(sig, crypto.Multi[*crypto.ECDSASignature])[i].sig))) && (istype(sig, crypto.Multi[*crypto.EDDSASignature]) ==> istype(p.Sig, *QuorumSignature_EDDSASigs) && as(p.Sig, *QuorumSignature_EDDSASigs) != nil && as(p.Sig, *QuorumSignature_EDDSASigs).EDDSASigs != nil && len(as(p.Sig, *QuorumSignature_EDDSASigs).EDDSASigs.Sigs) == len(as(sig, crypto.Multi[*crypto.EDDSASignature])) && (forall i int :: {as(p.Sig, *QuorumSignature_EDDSASigs).EDDSASigs.Sigs[i]} 0 <= i && i < len(as(sig, crypto.Multi[*crypto.EDDSASignature])) ==> as(p.Sig, *QuorumSignature_EDDSASigs).EDDSASigs.Sigs[i] != nil && as(p.Sig, *QuorumSignature_EDDSASigs).EDDSASigs.Sigs[i].Signer == as(sig, crypto.Multi[*crypto.EDDSASignature])[i].signer && content(as(p.Sig, *QuorumSignature_EDDSASigs).EDDSASigs.Sigs[i].Sig) == content(as(sig, crypto.Multi[*crypto.EDDSASignature])[i].sig) && len(as(p.Sig, *QuorumSignature_EDDSASigs).EDDSASigs.Sigs[i].Sig) == len(as(sig, crypto.Multi[*crypto.EDDSASignature])[i].sig)))
+// decodes(s, p): the signature s restored from the wire signature p lists p's entries in order.
+//@ pred decodes(s hotstuff.QuorumSignature, p *QuorumSignature) = (p != nil && istype(p.Sig, *QuorumSignature_ECDSASigs) && as(p.Sig, *QuorumSignature_ECDSASigs).ECDSASigs != nil ==> istype(s, crypto.Multi[*crypto.ECDSASignature]) && len(as(s, crypto.Multi[*crypto.ECDSASignature])) == len(as(p.Sig, *QuorumSignature_ECDSASigs).ECDSASigs.Sigs) && (forall i int :: {as(s, crypto.Multi[*crypto.ECDSASignature])[i]} 0 <= i && i < len(as(p.Sig, *QuorumSignature_ECDSASigs).ECDSASigs.Sigs) ==> as(s, crypto.Multi[*crypto.ECDSASignature])[i] != nil && as(s, crypto.Multi[*crypto.ECDSASignature])[i].signer == as(p.Sig, *QuorumSignature_ECDSASigs).ECDSASigs.Sigs[i].Signer && sameslice(as(s, crypto.Multi[*crypto.ECDSASignature])[i].sig, as(p.Sig, *QuorumSignature_ECDSASigs).ECDSASigs.Sigs[i].Sig))) && (p != nil && istype(p.Sig, *QuorumSignature_EDDSASigs) && as(p.Sig, *QuorumSignature_EDDSASigs).EDDSASigs != nil ==> istype(s, crypto.Multi[*crypto.EDDSASignature]) && len(as(s, crypto.Multi[*crypto.EDDSASignature])) == len(as(p.Sig, *QuorumSignature_EDDSASigs).EDDSASigs.Sigs) && (forall i int :: {as(s, crypto.Multi[*crypto.EDDSASignature])[i]} 0 <= i && i < len(as(p.Sig, *QuorumSignature_EDDSASigs).EDDSASigs.Sigs) ==> as(s, crypto.Multi[*crypto.EDDSASignature])[i] != nil && as(s, crypto.Multi[*crypto.EDDSASignature])[i].signer == as(p.Sig, *QuorumSignature_EDDSASigs).EDDSASigs.Sigs[i].Signer && sameslice(as(s, crypto.Multi[*crypto.EDDSASignature])[i].sig, as(p.Sig, *QuorumSignature_EDDSASigs).EDDSASigs.Sigs[i].Sig)))
+// samesig(a, b): same scheme, same signers in the same order, same signature bytes (hence the
+// same Participants() and ToBytes()).
+//@ pred samesig(a hotstuff.QuorumSignature, b hotstuff.QuorumSignature) = (istype(b, crypto.Multi[*crypto.ECDSASignature]) ==> istype(a, crypto.Multi[*crypto.ECDSASignature]) && len(as(a, crypto.Multi[*crypto.ECDSASignature])) == len(as(b, crypto.Multi[*crypto.ECDSASignature])) && (forall i int :: {as(a, crypto.Multi[*crypto.ECDSASignature])[i]} 0 <= i && i < len(as(b, crypto.Multi[*crypto.ECDSASignature])) ==> as(a, crypto.Multi[*crypto.ECDSASignature])[i] != nil && as(a, crypto.Multi[*crypto.ECDSASignature])[i].signer == as(b, crypto.Multi[*crypto.ECDSASignature])[i].signer && sameslice(as(a, crypto.Multi[*crypto.ECDSASignature])[i].sig, as(b, crypto.Multi[*crypto.ECDSASignature])[i].sig))) && (istype(b, crypto.Multi[*crypto.EDDSASignature]) ==> istype(a, crypto.Multi[*crypto.EDDSASignature]) && len(as(a, crypto.Multi[*crypto.EDDSASignature])) == len(as(b, crypto.Multi[*crypto.EDDSASignature])) && (forall i int :: {as(a, crypto.Multi[*crypto.EDDSASignature])[i]} 0 <= i && i < len(as(b, crypto.Multi[*crypto.EDDSASignature])) ==> as(a, crypto.Multi[*crypto.EDDSASignature])[i] != nil && as(a, crypto.Multi[*crypto.EDDSASignature])[i].signer == as(b, crypto.Multi[*crypto.EDDSASignature])[i].signer && content(as(a, crypto.Multi[*crypto.EDDSASignature])[i].sig) == content(as(b, crypto.Multi[*crypto.EDDSASignature])[i].sig) && len(as(a, crypto.Multi[*crypto.EDDSASignature])[i].sig) == len(as(b, crypto.Multi[*crypto.EDDSASignature])[i].sig))) && (b == nil ==> a == nil)
+// encodable(sig): what the encoder needs (no nil entries in a multi-signature).
+//@ pred encodable(sig hotstuff.QuorumSignature) = (istype(sig, crypto.Multi[*crypto.ECDSASignature]) ==> crypto.mnonnil(as(sig, crypto.Multi[*crypto.ECDSASignature]))) && (istype(sig, crypto.Multi[*crypto.EDDSASignature]) ==> crypto.mnonnilEd(as(sig, crypto.Multi[*crypto.EDDSASignature]))) && (istype(sig, *crypto.BLS12AggregateSignature) ==> as(sig, *crypto.BLS12AggregateSignature) != nil && len(as(sig, *crypto.BLS12AggregateSignature).participants.data) <= 268435456)
+
+//@ func verifRoundTripSignature property C12
+//@   requires encodable(sig)
+//@   ensures [round-trip] samesig(result, sig)
+//@   modifies alloc
+
 // Encoding of a signature: the wire form lists, in the signature's own order, each signer id
 // and that signer's signature bytes (ECDSA, EdDSA).
 //@ func QuorumSignatureToProto property C12
 //@   requires istype(sig, crypto.Multi[*crypto.ECDSASignature]) ==> crypto.mnonnil(as(sig, crypto.Multi[*crypto.ECDSASignature]))
 //@   requires istype(sig, crypto.Multi[*crypto.EDDSASignature]) ==> crypto.mnonnilEd(as(sig, crypto.Multi[*crypto.EDDSASignature]))
-//@   requires istype(sig, *crypto.BLS12AggregateSignature) ==> as(sig, *crypto.BLS12AggregateSignature) != nil
+//@   requires istype(sig, *crypto.BLS12AggregateSignature) ==> as(sig, *crypto.BLS12AggregateSignature) != nil && len(as(sig, *crypto.BLS12AggregateSignature).participants.data) <= 268435456
+//@   ensures [wire-shape] wsig(result)
+//@   ensures [encodes] encodes(result, sig)
 //@   uses crypto.multi_ecdsa_refines
 //@   uses crypto.multi_eddsa_refines
 //@   ensures [fresh] result != nil && fresh(result)
@@ -43,26 +73,26 @@ package hotstuffpb
 //@   modifies alloc
 
 //@ func PartialCertFromProto property C10
-//@   requires wireheap()
+//@   requires wpc(cert)
 //@   modifies alloc
 //@ func QuorumCertFromProto property C10
-//@   requires wireheap()
+//@   requires wqc(qc)
 //@   modifies alloc
 //@ func TimeoutCertFromProto property C10
-//@   requires wireheap()
+//@   requires wtc(m)
 //@   modifies alloc
 //@ func AggregateQCFromProto property C10
-//@   requires wireheap()
+//@   requires waqc(m)
 //@   modifies alloc
 //@ func SyncInfoFromProto property C10
-//@   requires wireheap()
+//@   requires wsi(m)
 //@   modifies alloc
 //@ func TimeoutMsgFromProto property C10
-//@   requires wireheap()
+//@   requires wtm(m)
 //@   modifies alloc
 //@ func BlockFromProto property C10
-//@   requires wireheap()
+//@   requires wblock(block)
 //@   modifies alloc
 //@ func ProposalFromProto property C10
-//@   requires wireheap()
+//@   requires wprop(p)
 //@   modifies alloc
